@@ -38,12 +38,14 @@ type C02Body struct {
 	// YieldOps: which classes of file operations are scheduling points in procs mode
 	YieldOps []string `json:"yield_ops"`
 	Seed     uint64   `json:"sched_seed"`
-	Sched    []int    `json:"sched,omitempty"` // recorded decisions (replay / minimised)
+	Sched    []int    `json:"sched,omitempty"`
+	PCT      int      `json:"pct"` // 0 = random walk, d>0 = priority-based strategy of depth d // recorded decisions (replay / minimised)
 }
 
 func (C02) Generate(seed uint64, tier string) *core.Scenario {
 	r := core.NewRand(seed)
 	b := C02Body{Seed: r.Uint64()}
+	b.PCT = []int{0, 0, 2, 3, 4, 5}[r.Intn(6)]
 	if r.Chance(1, 2) {
 		b.Mode = "shared"
 		b.Store = []string{"journal", "local"}[r.Intn(2)]
@@ -153,6 +155,7 @@ func (C02) Execute(t *testing.T, sc *core.Scenario) *core.Result {
 
 	ch := core.NewChooser(b.Seed, b.Sched)
 	s := core.NewSched(ch)
+	s.PCTDepth = b.PCT
 	s.KeepTrace = len(b.Sched) > 0
 	hist := &c02hist{}
 	data := map[string][]byte{} // every chunk any task wrote: address -> bytes
